@@ -110,6 +110,8 @@ func (e *Exec) initGhosts(w *World, st *BState) {
 	errT := types.Universe.Lookup("error").Type()
 	st.ghost["cbErr"] = zeroValue(errT)
 	ghostTypes["cbErr"] = errT
+	st.ghost["runErr"] = zeroValue(errT)
+	ghostTypes["runErr"] = errT
 }
 
 func usesStreams(fn *ssa.Function) bool {
